@@ -896,6 +896,12 @@ class Pile(Widget, WidgetContainerMixin, WidgetContainerListContentsMixin):
             if self._command_map[key] not in {Command.UP, Command.DOWN}:
                 return key
 
+            # the focus widget's keypress may have changed the contents or the focus
+            if not self.contents:
+                return key
+            i = self.focus_position
+            _widths, heights, size_args = self.get_rows_sizes(size, focus=self.selectable())
+
         if self._command_map[key] == Command.UP:
             candidates = tuple(range(i - 1, -1, -1))  # count backwards to 0
         else:  # self._command_map[key] == 'cursor down'
